@@ -233,7 +233,7 @@ impl Prop for C06Prop {
             Section {
                 name: "random",
                 kind: SectionKind::Random {
-                    cases: tier.pick(60_000, 3_000_000),
+                    cases: tier.pick(60_000, 1_000_000),
                     maxlen: 2400,
                 },
                 exhaustive: false,
